@@ -38,6 +38,17 @@ TIMEOUT_US = int(os.environ.get("VERIF_C07_TIMEOUT_US", "20000"))
 MAXPAR = int(os.environ.get("VERIF_MAXPAR", "0"))
 
 
+_T0 = [None]
+
+
+def lap(what):
+    import time
+    now = time.time()
+    if _T0[0] is not None:
+        common.log("C07 phase %-28s %.1fs" % (what, now - _T0[0]))
+    _T0[0] = now
+
+
 def par(n):
     """parallelism, capped by VERIF_MAXPAR (shared box) - affects wall time only"""
     return max(1, min(n, MAXPAR)) if MAXPAR > 0 else n
@@ -59,7 +70,9 @@ def model_checks(chk, tier):
             ("MC_ParRead", "MC_ParRead_nolock_struct_q", None),
             ("MC_LazyInit", "MC_LazyInit_crc", None),
             ("MC_LazyInit", "MC_LazyInit_disp2", None),
-            ("MC_LazyInit", "MC_LazyInit_cpu_strict", "CpuInfoStable"),
+            ("MC_LazyInit", "MC_LazyInit_cpu_strict", "CpuInfoStable"),     # carquet_init as found: memset race
+            ("MC_LazyInit", "MC_LazyInit_cpu_fixed", None),                  # without the memset
+            ("MC_LazyInit", "MC_LazyInit_disp2_fixed", None),
             ("MC_LazyInit", "MC_LazyInit_kernel_strict", "KernelUseSeesFinal"),
             ("MC_LazyInit", "MC_LazyInit_early_crc", "UseSeesFinalEquivalent"),
             ("MC_LazyInit", "MC_LazyInit_early_disp", "UseSeesFinalEquivalent")]
@@ -271,10 +284,16 @@ def loads_of(entries):
     out = []
     for ld in loads:
         p = ld["pts"]
-        if not all(k in p for k in (1, 2, 4, 5)):
-            raise common.InfraError("dry run: incomplete page load in hook log %s" % (p,))
-        steps = [{"k": "SH", "a": p[1]}, {"k": "RH", "a": p[2] - p[1]}, {"k": "SB", "a": p[4]}, {"k": "RB", "a": p[5] - p[4]},
-                 {"k": "DEC", "a": 0}]
+        steps = []
+        # a load that stops after the header (a data-page loader that finds an unannounced
+        # dictionary page and starts over) has only the first pair
+        if 1 in p and 2 in p:
+            steps += [{"k": "SH", "a": p[1]}, {"k": "RH", "a": p[2] - p[1]}]
+        if 4 in p and 5 in p:
+            steps += [{"k": "SB", "a": p[4]}, {"k": "RB", "a": p[5] - p[4]}]
+        if not steps:
+            raise common.InfraError("dry run: page load without I/O in hook log %s" % (p,))
+        steps.append({"k": "DEC", "a": 0})
         if 6 in p:
             steps.append({"k": "PUB", "a": 0})
         out.append((ld["dict"], steps))
@@ -347,11 +366,12 @@ def interleaves(sched, model_call):
     return False
 
 
-def tlc_schedules(chk, case, mode, pair_phase="pre", plans=(), simulate=None, tseed=None):
+def tlc_schedules(chk, case, mode, pair_phase="pre", plans=(), simulate=None, tseed=None, pair_tasks=None):
     d = os.path.join(common.scratch_root(), "c07-cases-%d" % os.getpid())
     os.makedirs(d, exist_ok=True)
     obj = dict(case)
-    obj.update({"mode": mode, "pairPhase": pair_phase, "plans": [list(p) for p in plans]})
+    obj.update({"mode": mode, "pairPhase": pair_phase, "plans": [list(p) for p in plans],
+                "pairTasks": list(pair_tasks) if pair_tasks else list(range(1, case["n"] + 1))})
     path = os.path.join(d, "case-%d-%d.json" % (os.getpid(), random.getrandbits(40)))
     with open(path, "w") as fh:
         json.dump(obj, fh)
@@ -402,7 +422,9 @@ def run(chk, tier, replay):
     if replay:
         return run_replay(chk, replay)
     rng = random.Random(common.seed())
+    lap("start")
     model_checks(chk, tier)
+    lap("model checks")
 
     fdir = os.path.join(common.scratch_root(), "c07-files-%d" % os.getpid())
     shutil.rmtree(fdir, ignore_errors=True)
@@ -415,11 +437,14 @@ def run(chk, tier, replay):
         fixtures = write_fixtures(chk, hists, plan, fdir)
         if not fixtures:
             raise common.InfraError("no fixture could be written")
+        lap("fixtures")
         execs, meta = explore(chk, tier, fixtures, rng)
         execs2, meta2 = independent_readers(chk, tier, fixtures, rng)
+        lap("independent readers")
         execs += execs2
         meta.update(meta2)
         judge(chk, execs, meta)
+        lap("trace validation")
     finally:
         shutil.rmtree(fdir, ignore_errors=True)
         shutil.rmtree(os.path.join(common.scratch_root(), "c07-cases-%d" % os.getpid()), ignore_errors=True)
@@ -467,6 +492,7 @@ def explore(chk, tier, fixtures, rng):
     for fx in fixtures:
         if fx.rgs is None:
             fx.rgs = [len(fx.table[0])]
+    lap("reference runs")
 
     # ---- 2. runs: thread sweep (unforced) and forced schedules
     runs = {}          # cid -> dict(ref=rid, threads, forced, sched(model, call), bad, lockv, ...)
@@ -485,7 +511,7 @@ def explore(chk, tier, fixtures, rng):
 
     # forced schedules: TLC jobs per (reference run, target call, team size)
     jobs = []
-    budget_per_job = 90 if quick else 700
+    budget_per_job = 60 if quick else 600
     for rid, rf in refs.items():
         if rf["mode"] != "f" or "calls" not in rf or rf["verify"]:
             continue
@@ -501,10 +527,21 @@ def explore(chk, tier, fixtures, rng):
             if active >= 2 and shape not in seen_shapes:
                 seen_shapes.add(shape)
                 targets.append(ci)
-        for ci in targets[:(2 if quick else 4)]:
-            teams = [min(ntask, 8)] + ([2] if ntask > 2 else [])
-            for team in (teams if not quick else teams[:1] if ntask <= 4 else teams):
-                jobs.append((rid, ci, team))
+        if quick:
+            # a budgeted selection: the 8-column SNAPPY file (Appendix B shape) gets the most attention
+            first = fx is fixtures[0]
+            if rf["proj"] is not None and not first:
+                continue
+            if ntask >= 8 and not first and rf["bs"] == 7:
+                continue
+            for ci in targets[:1]:
+                jobs.append((rid, ci, min(ntask, 8)))
+                if first and ntask >= 8 and rf["bs"] > 7 and rf["proj"] is None:
+                    jobs.append((rid, ci, 2))
+        else:
+            for ci in targets[:4]:
+                for team in [min(ntask, 8)] + ([2] if ntask > 2 else []) + ([3] if ntask > 4 else []):
+                    jobs.append((rid, ci, team))
     compressed = lambda fx: fx.codec != 0
 
     def gen(job):
@@ -517,38 +554,43 @@ def explore(chk, tier, fixtures, rng):
         pre_counts = [nio(s) for s in mc["pre"]]
         main_counts = [nio(s) for s in mc["main"]]
         est = (multinomial(pre_counts) if case["preT"] > 1 else 1) * multinomial(main_counts)
+        if est <= 1:
+            return job, est, [], []
         out, tl = [], []
         if est <= 10000:
-            r = tlc_schedules(chk, case, "all")
+            r = tlc_schedules(chk, case, "all")          # includes every schedule the lock admits (lockv = 0)
             tl.append(r)
             out += [(c, "all") for c in r.cases]
         else:
-            for ph, counts in (("pre", pre_counts), ("main", main_counts)):
-                if sum(1 for c in counts if c > 0) >= 2 and (ph == "main" or case["preT"] > 1):
-                    r = tlc_schedules(chk, case, "pair", pair_phase=ph)
-                    tl.append(r)
-                    out += [(c, "pair-" + ph) for c in r.cases]
-            r = tlc_schedules(chk, case, "all", simulate=40 if quick else 400, tseed=common.seed() + ci)
+            ptasks = None
+            if quick and ntask > 4:
+                ptasks = sorted(random.Random(common.seed() * 31 + ci + team).sample(range(1, ntask + 1), 4))
+            r = tlc_schedules(chk, case, "pair", pair_phase="both", pair_tasks=ptasks)
             tl.append(r)
-            out += [(c, "sim") for c in r.cases]
-        # schedules the lock admits (Lock = TRUE): all must be feasible on any implementation
-        lcase = dict(case)
-        lcase["lock"] = True
-        if est <= 10000:
-            r = tlc_schedules(chk, lcase, "all")
-        else:
-            r = tlc_schedules(chk, lcase, "all", simulate=20 if quick else 200, tseed=common.seed() + 7 + ci)
-        tl.append(r)
-        out += [(c, "lock") for c in r.cases]
+            out += [(c, "pair") for c in r.cases]
+            if not quick or ntask >= 8:
+                r = tlc_schedules(chk, case, "all", simulate=40 if quick else 400, tseed=common.seed() + ci)
+                tl.append(r)
+                out += [(c, "sim") for c in r.cases]
+            if not quick:
+                # random schedules the lock admits (Lock = TRUE): feasible on any implementation
+                lcase = dict(case)
+                lcase["lock"] = True
+                r = tlc_schedules(chk, lcase, "all", simulate=200, tseed=common.seed() + 7 + ci)
+                tl.append(r)
+                out += [(c, "lock") for c in r.cases]
         return job, est, out, tl
 
     gen_stats = {"tlc_jobs": len(jobs), "generated": 0, "by_kind": {}}
     forced_lines = []
     with ThreadPoolExecutor(max_workers=par(6)) as ex:
         results = list(ex.map(gen, jobs))
+    lap("TLC schedule generation")
     for (rid, ci, team), est, cases, tl in results:
         for r in tl:
             chk.add_tlc(r)
+        if os.environ.get("VERIF_C07_DEBUG"):
+            common.log("gen %s call %d team %d est %d: %s" % (rid, ci, team, est, [(len(r.cases), r.distinct, round(r.wall, 1)) for r in tl]))
         rf = refs[rid]
         fx = rf["fx"]
         model = rf["model"]
@@ -564,7 +606,7 @@ def explore(chk, tier, fixtures, rng):
         rng.shuffle(uniq)
         by = {}
         for c, kind in uniq:
-            by.setdefault(kind, []).append(c)
+            by.setdefault(kind + ("+adm" if c["lockv"] == 0 else ""), []).append(c)
         picked = []
         quota = max(10, budget_per_job // max(1, len(by)))
         for kind, cs in sorted(by.items()):
@@ -602,6 +644,7 @@ def explore(chk, tier, fixtures, rng):
         for f in faults2:
             fault_ids[f.case_id] = f
 
+    lap("replay of %d runs" % len(lines))
     # ---- 3. trace events
     execs, meta = [], {}
     stats = {"sweep_runs": 0, "forced_replayed": 0, "forced_realised": 0, "forced_infeasible": 0,
@@ -683,7 +726,7 @@ NEXT Next
 INVARIANTS Emit
 CHECK_DEADLOCK FALSE
 """
-PROGS = ["I", "K", "D", "OfC", "OfB2", "VfC", "VfB2", "OmC", "VmB2", "ObC", "VbC"]
+PROGS = ["I", "K", "D", "OfC", "OfB1", "VfC", "VfB1", "OmC", "VmB2", "ObC", "VbB2"]
 
 
 def independent_readers(chk, tier, fixtures, rng):
@@ -700,10 +743,16 @@ def independent_readers(chk, tier, fixtures, rng):
     want = 110 if quick else 2000
     fxs = [f for f in fixtures if f.codec in (1, 6)][:(2 if quick else 6)] or fixtures[:1]
     trials = []
-    # every first-call pair at least once, then random assignments
-    assigns.sort(key=lambda a: (len(a) != 2,))
-    for i, a in enumerate(assigns[:want]):
-        trials.append((fxs[i % len(fxs)], a))
+    # (a) every lazily initialised API raced against itself (all threads make the same first call),
+    # repeated; (b) every pair of first calls; (c) random assignments up to the tier's budget
+    homog = [a for a in assigns if len(set(a)) == 1 and a[0] in ("I", "K", "D", "VfC", "VfB1", "OfC")]
+    for rep in range(4 if quick else 40):
+        for a in homog:
+            trials.append(a)
+    trials += [a for a in assigns if len(a) == 2 and len(set(a)) == 2]
+    rest = [a for a in assigns if len(a) > 2 and len(set(a)) > 1]
+    trials += rest[:max(0, want - len(trials))]
+    trials = [(fxs[i % len(fxs)], a) for i, a in enumerate(trials[:max(want, len(homog))])]
     env = dict(os.environ)
     env.update(common.ASAN_ENV)
     env.update(H_ENV)
@@ -781,7 +830,11 @@ def judge(chk, execs, meta):
                 chk.violation("fault:%s" % m.get("fault", "?"), "%s: the run crashed / hung: %s (cfg %s)" % (v["id"], m.get("fault"), brief(cfg)), m)
                 nviol += 1
             elif w == "differs-from-solo":
-                chk.violation("indep:differs-from-solo", "%s: a concurrent independent reader returned something different from its solo run (programs %s)" % (v["id"], cfg.get("progs")), m)
+                prog = v.get("detail") or "?"
+                api = {"I": "cpu-info", "K": "crc32", "D": "dispatch"}.get(prog, "reader-" + prog)
+                chk.violation("indep:%s:differs-from-solo" % api,
+                              "%s: thread running program %s (%s) returned something different from its solo run when started concurrently "
+                              "in a fresh process (programs %s)" % (v["id"], prog, api, cfg.get("progs")), m)
                 nviol += 1
             elif w in ("status-differs", "rows-differ", "misaligned-batch", "content-differs"):
                 mode = {"f": "fread", "m": "mmap", "b": "buffer"}.get(cfg.get("mode"), "?")
